@@ -222,6 +222,66 @@ def castle_with_ep(rng, n):
     return cases
 
 
+def corner_capture_chains(rng):
+    """chains through the engine's own generator in which a piece captures an unmoved rook on a corner
+    (from a corner, from elsewhere, by every piece kind incl. king and promoting pawn), followed by 0-2 further
+    moves: castling rights of the captured side must be gone in every later position"""
+    out = []
+    corners = {"a1": (0, 0), "h1": (7, 0), "a8": (0, 7), "h8": (7, 7)}
+    for victim_corner, (vf, vr) in corners.items():
+        victim_white = vr == 0
+        own_k, own_r = ("K", "R") if victim_white else ("k", "r")
+        right = ("Q" if vf == 0 else "K") if victim_white else ("q" if vf == 0 else "k")
+        mover_white = not victim_white
+        for kind in "brqnkp":
+            for _ in range(6):
+                grid = {(4, vr): own_k, (vf, vr): own_r}
+                # choose an origin square from which `kind` captures on the corner
+                cands = []
+                for f in range(8):
+                    for r in range(8):
+                        if (f, r) in grid:
+                            continue
+                        df, dr = vf - f, vr - r
+                        if kind == "b" and abs(df) == abs(dr) and df != 0:
+                            cands.append((f, r))
+                        elif kind == "r" and (df == 0) != (dr == 0):
+                            cands.append((f, r))
+                        elif kind == "q" and ((abs(df) == abs(dr) and df != 0) or ((df == 0) != (dr == 0))):
+                            cands.append((f, r))
+                        elif kind == "n" and sorted((abs(df), abs(dr))) == [1, 2]:
+                            cands.append((f, r))
+                        elif kind == "k" and max(abs(df), abs(dr)) == 1:
+                            cands.append((f, r))
+                        elif kind == "p" and abs(df) == 1 and dr == (1 if mover_white else -1):
+                            cands.append((f, r))
+                if not cands:
+                    continue
+                # prefer origins on other corners sometimes
+                cc = [q for q in cands if q in corners.values()]
+                o = rng.choice(cc) if cc and rng.random() < 0.5 else rng.choice(cands)
+                # path must be clear for sliders
+                ok = True
+                if kind in "brq":
+                    st = ((vf > o[0]) - (vf < o[0]), (vr > o[1]) - (vr < o[1]))
+                    q = (o[0] + st[0], o[1] + st[1])
+                    while q != (vf, vr):
+                        if q in grid:
+                            ok = False
+                        q = (q[0] + st[0], q[1] + st[1])
+                if not ok:
+                    continue
+                letter = kind.upper() if mover_white else kind
+                grid[o] = letter
+                if kind != "k":
+                    free = [(f, r) for f in range(8) for r in range(8) if (f, r) not in grid and abs(r - vr) >= 3]
+                    grid[rng.choice(free)] = "K" if mover_white else "k"
+                fen = fen_of_grid(grid, stm="w" if mover_white else "b", rights=right)
+                mv = sqname(*o) + sqname(vf, vr) + ("q" if kind == "p" else "")
+                out.append((fen, [mv]))
+    return out
+
+
 def ep_geometry(rng, n):
     """G3: en-passant with pins along rank, file and diagonals, check evasion by ep, both capturers"""
     cases = []
